@@ -5,6 +5,7 @@ import (
 	"fmt"
 	"os"
 
+	"verif/harness/fake"
 	"verif/harness/gen"
 )
 
@@ -22,6 +23,14 @@ func driveExplore(seed int64, tier, out, replay string) {
 		}
 		if os.Getenv("EXPLORE_MATRIX") != "" {
 			w = handWorldMatrix()
+		}
+		if os.Getenv("EXPLORE_BIG") != "" {
+			a := w.Services[0]
+			a.Defs = append(a.Defs, &gen.Def{Kind: "SCALAR", Name: "Long"})
+			h := a.Def("Human")
+			h.Fields = append(h.Fields, gen.Field{Name: "big", Type: "Long"}, gen.Field{Name: "ratio", Type: "Float"})
+			w.Store.Entities["h1"].Fields["big"] = fake.Int(9007199254740993)
+			w.Store.Entities["h1"].Fields["ratio"] = fake.Val{Kind: fake.VStr, S: "x"}
 		}
 		if ws := os.Getenv("EXPLORE_WORLD"); ws != "" {
 			var seedv int64
